@@ -271,10 +271,11 @@ class Check:
         with open(os.path.join(EVIDENCE, f"{self.pid}.json"), "w") as f:
             json.dump(ev, f, indent=1, ensure_ascii=False, default=str)
         validate_evidence(ev)
-        if self.machinery_errors:
-            for m in self.machinery_errors:
-                print(f"MACHINERY-ERROR property={self.pid}: {m}")
+        for m in self.machinery_errors:
+            print(f"MACHINERY-ERROR property={self.pid}: {m}")
+        if self.machinery_errors and not lines:
             sys.exit(2)
+        # a violation that was found stands, whatever else went wrong in the machinery
         for l in lines:
             print(l)
         print(f"{self.pid} [{self.tier}] evaluations={cov.get('evaluations', cov.get('states'))} "
